@@ -174,6 +174,23 @@ def f_ebyte_13():
     return all(len(p) == 13 for p in pk), f"packet lengths {[len(p) for p in pk]}"
 
 
+@finding("C06/message-trip/actisense/126464", "C06")
+def f_actisense_empty_payload():
+    """an all-zero message of a variable-length definition encodes to an empty payload; the Actisense line then has no data token"""
+    from nmea2000 import pgns
+    from nmea2000.encoder import NMEA2000Encoder
+    from nmea2000.decoder import NMEA2000Decoder
+    m = pgns.decode_pgn_126464(0)
+    m.source, m.destination, m.priority = 5, 255, 6
+    line = NMEA2000Encoder().encode_actisense(m)
+    try:
+        r = NMEA2000Decoder().decode_actisense_string("A000001.000 " + line)
+    except Exception as e:
+        return False, f"encode_actisense gives {line!r}; decode_actisense_string raises {type(e).__name__}"
+    ok = r is not None and r.PGN == 126464 and [f.value for f in r.fields] == [f.value for f in m.fields]
+    return ok, f"encode_actisense gives {line!r}; decoded back: {r is not None and [f.value for f in r.fields]}"
+
+
 # ---------------------------------------------------------------- C08
 @finding("C08/no-match-arm/129808.dscCallInformation", "C08")
 def f_129808():
@@ -194,6 +211,22 @@ def f_one_bit_none():
     except ValueError:
         return True, "absent value for a 1-bit field is rejected"
     return False, f"encode_number(None, 1, ...) = {v}: an absent value silently becomes the value 1 of the 1-bit field"
+
+
+@finding("C09/time-by-value/TIME", "C09")
+def f_time_by_value():
+    """a TIME given as a datetime.time value (no raw value) was encoded as seconds, ignoring the field's resolution"""
+    import datetime
+    from nmea2000 import pgns
+    m = pgns.decode_pgn_126992(int.from_bytes(bytes([1, 0xF0, 0x10, 0x4e, 0x00, 0x5a, 0x62, 0x02]), "little"))
+    f = [x for x in m.fields if x.id == "time"][0]
+    f.value, f.raw_value = datetime.time(1, 2, 3), None
+    try:
+        b = pgns.encode_pgn_126992(m)
+    except Exception as e:
+        return True, f"rejected ({type(e).__name__})"
+    back = [x for x in pgns.decode_pgn_126992(int.from_bytes(b, "little")).fields if x.id == "time"][0]
+    return back.value == datetime.time(1, 2, 3), f"time 01:02:03 given by value decodes back as {back.value!r} (raw {back.raw_value!r})"
 
 
 # ---------------------------------------------------------------- C10
@@ -226,6 +259,44 @@ def f_unknown_manu():
     d.decode_basic_string(_basic(60928, name.to_bytes(8, "little"), src=7))
     m = d.decode_basic_string(_basic(127508, bytes(8), src=7))
     return m is None, "traffic of an unlisted (unknown-code) manufacturer passes include_manufacturer_code=['Garmin']"
+
+
+def _claim_line(src, name):
+    return "2022-09-10T12:10:16.614Z,6,60928,%d,255,8,%s" % (src, ",".join("%02x" % b for b in name.to_bytes(8, "little")))
+
+
+def _name(unique, manu, lower=0, upper=0, func=130, cls=25, sysinst=0, industry=4, arb=1):
+    return unique | (manu << 21) | (lower << 32) | (upper << 35) | (func << 40) | (cls << 49) | (sysinst << 56) | (industry << 60) | (arb << 63)
+
+
+@finding("C11/identity-all-ones-subfield/instance15", "C11")
+def f_identity_all_ones():
+    """all-ones NAME sub-fields were read as 'not available' and replaced by 0 in the identity (device instance 15 reported as 8)"""
+    d = _dec()
+    m = d.decode_basic_string(_claim_line(9, _name(1234, 275, lower=7, upper=1)))
+    iso = d.source_to_iso_name.get(9)
+    ok = iso is not None and iso.device_instance == 15 and iso.unique_number == 1234
+    d2 = _dec()
+    d2.decode_basic_string(_claim_line(9, _name(2097151, 275, sysinst=15)))
+    iso2 = d2.source_to_iso_name.get(9)
+    ok = ok and iso2 is not None and iso2.unique_number == 2097151 and iso2.system_instance == 15
+    return ok, f"instance byte 15 -> device_instance {iso and iso.device_instance}; unique 2097151/system 15 -> {iso2 and (iso2.unique_number, iso2.system_instance)}"
+
+
+@finding("C11/undecodable-claim/reserved-name-subfield", "C11")
+def f_undecodable_claim():
+    """a claim whose NAME sub-field holds a reserved code (system instance 14, unique number 2097149/50, upper instance 30) is rejected
+    by the generated decoder (database range), so the source keeps its previous identity: traffic of an excluded manufacturer leaks"""
+    d = _dec(exclude_manufacturer_code=["garmin"], build_network_map=True)
+    d.decode_basic_string(_claim_line(9, _name(77, 275)))                     # Navico
+    try:
+        d.decode_basic_string(_claim_line(9, _name(78, 229, sysinst=14)))     # Garmin re-claims the address
+        raised = False
+    except Exception:
+        raised = True
+    m = d.decode_basic_string("2022-09-10T12:10:17.000Z,2,127250,9,255,8,00,10,27,ff,7f,ff,7f,fd")
+    leaked = m is not None
+    return not leaked, f"re-claim by Garmin with system instance 14 {'raised' if raised else 'was accepted'}; later data from that address is {'returned with identity ' + str(m.source_iso_name.manufacturer_code) if leaked else 'withheld'}"
 
 
 # ---------------------------------------------------------------- C15
@@ -375,6 +446,64 @@ def f_close_during_connect():
     finally:
         _a.open_connection = real_open
     return st == "CLOSED" and states == ["CLOSED"] and closed, f"state after close()+connect completion: {st}, status log {states}, new link closed={closed}"
+
+
+@finding("C14/task-alive", "C14")
+def f_close_from_status_callback():
+    """close() called from the status callback at the first fault (the callback runs inside the receive task) cancelled the task it
+    was running in: close() raised CancelledError and the queue consumer task was left pending"""
+    import nmea2000.ioclient as io_
+
+    async def main():
+        w = _FakeWriter()
+        rd = asyncio.StreamReader()
+
+        async def fake_open(host, port):
+            return rd, w
+        io_.asyncio.open_connection = fake_open
+        c = io_.EByteNmea2000Gateway("h", 1)
+        states, raised = [], []
+
+        async def cb(s):
+            states.append(s.name)
+            if s.name == "DISCONNECTED":
+                try:
+                    await c.close()
+                except BaseException as e:
+                    raised.append(type(e).__name__)
+                    raise
+        c.set_status_callback(cb)
+        await c.connect()
+        await asyncio.sleep(0.01)
+        rd.feed_eof()                    # the gateway drops the link
+        await asyncio.sleep(0.3)
+        pq = c._process_queue_task
+        alive = pq is not None and not pq.done()
+        if alive:
+            pq.cancel()
+        return states, raised, alive, c.state.name
+    import asyncio as _a
+    real_open = _a.open_connection
+    try:
+        states, raised, alive, st = _run(main())
+    finally:
+        _a.open_connection = real_open
+    return (not raised) and (not alive) and st == "CLOSED", f"status log {states}, close() raised {raised}, queue consumer still pending: {alive}, state {st}"
+
+
+@finding("C18/units/130818.degrees-twice", "C18")
+def f_degrees_twice():
+    """ANGLE fields that the database gives in degrees already (130818 heading/pitch/roll offset, 126720 xAxisAngularOffset) were run through
+    radians->degrees again with the preference ANGLE:deg"""
+    from nmea2000.decoder import NMEA2000Decoder
+    from nmea2000.consts import PhysicalQuantities as PQ
+    line = "2024-05-06T07:08:09.100Z,3,130818,35,255,28,3f,87,00,00,0a,00,19,00,fb,ff,00,00,00,00,00,00,00,00,00,00,00,00,00,00,00,00,00,00"
+    plain = NMEA2000Decoder().decode_basic_string(line, True)
+    pref = NMEA2000Decoder(preferred_units={PQ.ANGLE: "deg"}).decode_basic_string(line, True)
+    a = [(f.id, f.value, f.unit_of_measurement) for f in plain.fields if f.physical_quantities == PQ.ANGLE]
+    b = [(f.id, f.value, f.unit_of_measurement) for f in pref.fields if f.physical_quantities == PQ.ANGLE]
+    ok = all(abs(x[1] - y[1]) < 0.51 for x, y in zip(a, b))
+    return ok, f"without preference {a}; with ANGLE:deg {b}"
 
 
 @finding("C19/concurrent-send-interleave", "C19")
